@@ -36,10 +36,11 @@ VALS = {"eol": ["lf", "crlf"], "indent": ["none", "sp2", "tab"], "blank": [0, 1,
         "taskSp": ["sp1", "sp2", "tab"], "nameLp": ["none", "sp1"], "lpIn": ["none", "sp1"], "commaL": ["none", "sp1"], "commaR": ["none", "sp1", "tab"],
         "trail": [False, True], "rpIn": ["none", "sp1"], "arrowL": ["none", "sp1"], "arrowR": ["none", "sp1"], "parenSingle": [False, True],
         "lbL": ["none", "sp1", "tab"], "body": ["multi", "one"], "cmdIndent": ["none", "sp4", "tab"], "cmdBlank": [0, 1], "rbIndent": ["none", "sp2"],
-        "lead": ["none", "lf", "sp2lf"], "finalNL": [0, 1, 2], "listBreak": ["none", "lines"]}
+        "lead": ["none", "lf", "sp2lf"], "finalNL": [0, 1, 2], "listBreak": ["none", "lines"],
+        "oneL": ["none", "sp1", "sp2", "tab"], "oneR": ["none", "sp1", "sp2", "tab"]}
 DEFAULT = {"eol": "lf", "indent": "none", "blank": 0, "declL": "sp1", "declR": "sp1", "taskSp": "sp1", "nameLp": "none", "lpIn": "none", "commaL": "none",
            "commaR": "sp1", "trail": False, "rpIn": "none", "arrowL": "sp1", "arrowR": "sp1", "parenSingle": False, "lbL": "sp1", "body": "multi",
-           "cmdIndent": "sp4", "cmdBlank": 0, "rbIndent": "none", "lead": "none", "finalNL": 1, "listBreak": "none"}
+           "cmdIndent": "sp4", "cmdBlank": 0, "rbIndent": "none", "lead": "none", "finalNL": 1, "listBreak": "none", "oneL": "sp1", "oneR": "sp1"}
 
 
 def S(i):
